@@ -5,6 +5,7 @@ CONSTANTS
   MaxW = 16
   FreshOnly = FALSE
   Ops = {"bin", "un", "slice", "compose", "cond", "ext", "simplify", "pickle", "mapw", "subst", "mset", "mget"}
+  AutoSimp = TRUE
   MapSpan = 6
   MapSrc = {}
   Rand = TRUE
